@@ -100,6 +100,13 @@ def concretize(it, v, what="value"):
 
 def arith(it, op: str, a, b):
     """Binary arithmetic on integer-like values. op in add sub mul floordiv mod lshift rshift and or xor pow truediv."""
+    if op in ("and", "or", "xor") and isinstance(a, (bool, SBool)) and isinstance(b, (bool, SBool)):
+        ta, tb = to_bterm(a), to_bterm(b)
+        if op == "and":
+            return from_term(ir.band_(ta, tb))
+        if op == "or":
+            return from_term(ir.bor_(ta, tb))
+        return from_term(ir.bnot_(ir.beq(ta, tb)))
     nt = arith_convert(a, b)
     # rlshift / rrshift are not overridden by fixedint: int << FixedInt gives a plain int
     if op in ("lshift", "rshift") and not isinstance(a, FixedV):
